@@ -188,11 +188,13 @@ Definition revoke_refresh st rid : store * option serr :=
       end
   end.
 (* RevokeAccessToken(requestID): deletes the record the index points to *)
+(* RevokeAccessToken(requestID): every access token of the request is deleted (the hybrid flow stores two under one
+   request id: one minted by the authorization endpoint, one by the token endpoint); the index is left as it is *)
+Definition drop_rid (t : fmap req) (rid : nat) : fmap req :=
+  fun k => match t k with Some r => if Nat.eqb (r_id r) rid then None else Some r | None => None end.
 Definition revoke_access st rid : store :=
-  match at_idx st rid with
-  | None => st
-  | Some k => delete_access st k
-  end.
+  set_implicit (set_access st (drop_rid (access st) rid)) (drop_rid (implicit st) rid).
+Arguments revoke_access : simpl never.
 (* RotateRefreshToken(requestID, _) = RevokeRefreshToken; RevokeAccessToken *)
 Definition rotate_refresh st rid : store * option serr :=
   match revoke_refresh st rid with
